@@ -270,7 +270,7 @@ class HDict(H):
         self.default, self.vty = default, vty
 
     def map_terms(self, fn):
-        return HDict(self.kty, self.binder, fn(self.dom), _m(self.val, fn), self.default, self.vty)
+        return HDict(self.kty, self.binder, fn(self.dom), _m(self.val, fn) if self.val is not None else None, self.default, self.vty)
 
 
 class HPyDict(H):
